@@ -306,6 +306,27 @@ impl<'a, D: DependencyProvider> Encoder<'a, D> {
             self.state.negative_assertions.push((variable, clause_id));
         }
 
+        #[cfg(resolvo_verif)]
+        crate::verif::emit(|| {
+            let cands: Vec<Vec<u32>> = version_set_variables
+                .iter()
+                .map(|vs| vs.iter().map(|v| v.to_usize() as u32).collect())
+                .collect();
+            let mut lits = vec![(variable.to_usize() as u32, false)];
+            lits.extend(cands.iter().flatten().map(|&c| (c, true)));
+            crate::verif::Event::Clause {
+                id: clause_id.to_usize() as u32 + 1,
+                kind: crate::verif::ClauseKind::Requires {
+                    parent: variable.to_usize() as u32,
+                    version_sets: requirement
+                        .version_sets(self.cache.provider())
+                        .map(|v| v.0)
+                        .collect(),
+                    candidates: cands,
+                },
+                lits,
+            }
+        });
         // Store resolved variables for later
         self.state
             .requirement_to_sorted_candidates
